@@ -11,11 +11,13 @@ Scenario:
   prog   {"scripts": [...]}  or  {"gen": {...}}   (see kernel.py)
   rt     {"F": 4*factor (int), "strict": 0/1, "t0": initial simulated time (int), "w0": initial virtual clock,
           "sleep": [off, ...]       offset of each sleep's return against the requested delta (consumed in call order,
-                                    cyclically): sleep(d) advances the clock by max(1, d + off)
+                                    cyclically): sleep(d) advances the clock by max(min(minadv, d), d + off), minadv = 1 by default
           "work":  [[c, sy], ...]   every run of a harness-owned process body / probe callback consumes c (cyclically);
                                     sy = 1: the body calls env.sync() before consuming, 2: after
           "gaps":  [[c, sy], ...]   before the n-th top-level plan op the top level lets c pass; sy as above}
-All wall-clock quantities are integers in quarter ticks; the clock handed to the code is q / 4.0 (exact).
+All wall-clock quantities are integers in units of 1/den s (den = 4 by default: quarter ticks; "den": 65536 gives a
+15 microsecond grain, so that sleeps returning a few tens of microseconds early are expressible); the clock handed to
+the code is q / den (exact), the factor F / den.
 
 Wall-clock trace events (uniform records): see spec/misc/RealtimeTrace.tla.
 """
@@ -36,6 +38,8 @@ class Runaway(BaseException):
 class Clock:
     def __init__(self, rt):
         self.q = rt["w0"]
+        self.den = rt.get("den", 4)
+        self.minadv = rt.get("minadv", 1)      # a sleep advances the clock by at least min(minadv, requested) units
         self.sl = rt.get("sleep") or [0]
         self.work = rt.get("work") or [[0, 0]]
         self.gaps = rt.get("gaps") or [[0, 0]]
@@ -55,14 +59,14 @@ class Clock:
     def monotonic(self):
         self.tick()
         self.log("M")
-        return self.q / 4.0
+        return self.q / float(self.den)
 
     def sleep(self, delta):
         self.tick()
-        d = ex(delta, 4)
+        d = ex(delta, self.den)
         off = self.sl[self.i % len(self.sl)]
         self.i += 1
-        a = max(1, d + off) if d > 0 else 1
+        a = max(min(self.minadv, d), d + off) if d > 0 else 1
         self.log("SL", d=d, a=a)
         self.q += a
 
@@ -174,7 +178,7 @@ def run_one(sc):
     rtmod.monotonic, rtmod.sleep = clock.monotonic, clock.sleep
     try:
         log, err, final = run_scripts(
-            scripts, lambda: RealtimeEnvironment(initial_time=t0, factor=rt["F"] / 4.0, strict=bool(rt["strict"])), clock)
+            scripts, lambda: RealtimeEnvironment(initial_time=t0, factor=rt["F"] / float(rt.get("den", 4)), strict=bool(rt["strict"])), clock)
     finally:
         rtmod.monotonic, rtmod.sleep = saved
     if err:
